@@ -67,6 +67,13 @@ TEXT = {
         "design_ref": "DESIGN.md §5 C12", "note": "Trusted: Lean kernel; rustc + the proc-macro expansion (observed through the compiled corpus only); the Python corpus generator; serde derive semantics of the generated structs.",
         "technique": "Lean 4 proof (definitional properties of three separately mirrored generators) + compile-and-run correspondence over a generated trait corpus",
     },
+    "C15": {
+        "level": "Machine-checked theorems over every interface tree for a model of codegen.rs (IDL tree -> generated declarations) composed with the proxy-macro model of C12 and serde / ReplyError derive semantics: method, parameter, field, output, enum-value and error names on the wire are exactly the IDL's, whatever the case converters do; "
+                 "the whole parameter object of a call is the one the IDL prescribes; every IDL type maps to a Rust type of the declared JSON shape in all four tables; emitted identifiers are never bare keywords; output lifetimes are declared exactly when used. "
+                 "The model is tied to the source by comparing, on every run, the declarations of the code generated for a corpus of 25 (quick) / 300 (thorough) interface descriptions (read back with syn) with the model's, by the extracted keyword and primitive-type tables, and by compiling the generated modules and exercising every method, type and error against the model and the IDL-spelled oracle.",
+        "design_ref": "DESIGN.md §5 C15", "note": "Trusted: Lean kernel; rustc, serde, the proc macros as compiled (observed through the corpus only); zvg's syn read-back; the Python corpus generator and its heck port (checked against heck every run).",
+        "technique": "Lean 4 proof (names/keys/shapes/keywords/lifetimes of the generator model, for all interface trees) + translator-extracted tables + compile-and-run correspondence of generated code over a generated IDL corpus",
+    },
     "C13": {
         "level": "PARTIAL proof + exhaustive-style correspondence. Machine-checked: parsing is total with two outcomes (the model has no panic path; the real parser is run under catch_unwind on every text); the type-name and field-name lexers accept exactly "
                  "the grammar's regular expressions with longest match (soundness and completeness). The parser model is a function-by-function port (winnow combinator semantics included) that agrees with the real parser on ~65k (quick) / ~1.5M (thorough) "
